@@ -351,6 +351,38 @@ fn main() {
         check_matcher(&c, p, src, g, true);
       }
     });
+    // ---- library combinators (core::ops): And / Or / Not / All / Any over patterns and kinds;
+    // their potential_kinds are derived from their parts and feed the same kind dispatch
+    {
+      use ast_grep_core::ops::Op;
+      let some: Vec<&(String, Pattern<SupportLang>)> = pats.iter().filter(|(t, _)| t.len() <= 12).step_by((pats.len() / 12).max(1)).take(12).collect();
+      let kinds: Vec<&str> = la.kinds.to_vec();
+      let run = |class: &str, desc: Value, m: &dyn Fn(&Case, &str, &AstGrep<D>)| {
+        let c = Case { rep: &rep, st: &st, lang, class: format!("ops:{class}"), desc };
+        for (src, g) in &ts_small {
+          m(&c, src, g);
+        }
+      };
+      for (t1, p1) in &some {
+        for k in &kinds {
+          let km = || KindMatcher::new(k, spec.lang);
+          let m1 = Op::every(p1.clone()).and(km());
+          run("and", json!({"and": [t1, {"kind": k}]}), &|c, src, g| check_matcher(c, &m1, src, g, false));
+          let m2 = Op::either(p1.clone()).or(km());
+          run("or", json!({"or": [t1, {"kind": k}]}), &|c, src, g| check_matcher(c, &m2, src, g, false));
+          let m3 = Op::every(km()).and(Op::not(p1.clone()));
+          run("and-not", json!({"and": [{"kind": k}, {"not": t1}]}), &|c, src, g| check_matcher(c, &m3, src, g, false));
+        }
+        let m4 = Op::not(p1.clone());
+        run("not", json!({"not": t1}), &|c, src, g| check_matcher(c, &m4, src, g, false));
+        for (t2, p2) in &some {
+          let m5 = Op::all([p1.clone(), p2.clone()]);
+          run("all", json!({"all": [t1, t2]}), &|c, src, g| check_matcher(c, &m5, src, g, false));
+          let m6 = Op::any([p1.clone(), p2.clone()]);
+          run("any", json!({"any": [t1, t2]}), &|c, src, g| check_matcher(c, &m6, src, g, false));
+        }
+      }
+    }
     // ---- kinds
     for k in la.kinds {
       let m = KindMatcher::new(k, spec.lang);
